@@ -1706,20 +1706,34 @@ where
                 Value::Primitive(mut v) => {
                     self.invalidate_if_charset_changed(tag);
                     // extend value
-                    v.extend_str([string]).context(ModifySnafu)?;
-                    // reinsert element
+                    let result = v.extend_str([string]).context(ModifySnafu);
+                    // reinsert element (left as it was if it could not be extended)
                     self.put(DataElement::new(tag, header.vr, v));
-                    Ok(())
+                    result
                 }
 
-                Value::PixelSequence(..) => IncompatibleTypesSnafu {
-                    kind: ValueType::PixelSequence,
+                Value::PixelSequence(..) => {
+                    // not extensible: put the element back untouched
+                    self.entries.insert(
+                        tag,
+                        DataElement::new_with_len(tag, header.vr, header.len, value),
+                    );
+                    IncompatibleTypesSnafu {
+                        kind: ValueType::PixelSequence,
+                    }
+                    .fail()
                 }
-                .fail(),
-                Value::Sequence(..) => IncompatibleTypesSnafu {
-                    kind: ValueType::DataSetSequence,
+                Value::Sequence(..) => {
+                    // not extensible: put the element back untouched
+                    self.entries.insert(
+                        tag,
+                        DataElement::new_with_len(tag, header.vr, header.len, value),
+                    );
+                    IncompatibleTypesSnafu {
+                        kind: ValueType::DataSetSequence,
+                    }
+                    .fail()
                 }
-                .fail(),
             }
         } else {
             // infer VR from tag
@@ -1739,20 +1753,34 @@ where
             match value {
                 Value::Primitive(mut v) => {
                     // extend value
-                    v.extend_i32([integer]).context(ModifySnafu)?;
-                    // reinsert element
+                    let result = v.extend_i32([integer]).context(ModifySnafu);
+                    // reinsert element (left as it was if it could not be extended)
                     self.put(DataElement::new(tag, header.vr, v));
-                    Ok(())
+                    result
                 }
 
-                Value::PixelSequence(..) => IncompatibleTypesSnafu {
-                    kind: ValueType::PixelSequence,
+                Value::PixelSequence(..) => {
+                    // not extensible: put the element back untouched
+                    self.entries.insert(
+                        tag,
+                        DataElement::new_with_len(tag, header.vr, header.len, value),
+                    );
+                    IncompatibleTypesSnafu {
+                        kind: ValueType::PixelSequence,
+                    }
+                    .fail()
                 }
-                .fail(),
-                Value::Sequence(..) => IncompatibleTypesSnafu {
-                    kind: ValueType::DataSetSequence,
+                Value::Sequence(..) => {
+                    // not extensible: put the element back untouched
+                    self.entries.insert(
+                        tag,
+                        DataElement::new_with_len(tag, header.vr, header.len, value),
+                    );
+                    IncompatibleTypesSnafu {
+                        kind: ValueType::DataSetSequence,
+                    }
+                    .fail()
                 }
-                .fail(),
             }
         } else {
             // infer VR from tag
@@ -1772,20 +1800,34 @@ where
             match value {
                 Value::Primitive(mut v) => {
                     // extend value
-                    v.extend_u32([integer]).context(ModifySnafu)?;
-                    // reinsert element
+                    let result = v.extend_u32([integer]).context(ModifySnafu);
+                    // reinsert element (left as it was if it could not be extended)
                     self.put(DataElement::new(tag, header.vr, v));
-                    Ok(())
+                    result
                 }
 
-                Value::PixelSequence(..) => IncompatibleTypesSnafu {
-                    kind: ValueType::PixelSequence,
+                Value::PixelSequence(..) => {
+                    // not extensible: put the element back untouched
+                    self.entries.insert(
+                        tag,
+                        DataElement::new_with_len(tag, header.vr, header.len, value),
+                    );
+                    IncompatibleTypesSnafu {
+                        kind: ValueType::PixelSequence,
+                    }
+                    .fail()
                 }
-                .fail(),
-                Value::Sequence(..) => IncompatibleTypesSnafu {
-                    kind: ValueType::DataSetSequence,
+                Value::Sequence(..) => {
+                    // not extensible: put the element back untouched
+                    self.entries.insert(
+                        tag,
+                        DataElement::new_with_len(tag, header.vr, header.len, value),
+                    );
+                    IncompatibleTypesSnafu {
+                        kind: ValueType::DataSetSequence,
+                    }
+                    .fail()
                 }
-                .fail(),
             }
         } else {
             // infer VR from tag
@@ -1805,20 +1847,34 @@ where
             match value {
                 Value::Primitive(mut v) => {
                     // extend value
-                    v.extend_i16([integer]).context(ModifySnafu)?;
-                    // reinsert element
+                    let result = v.extend_i16([integer]).context(ModifySnafu);
+                    // reinsert element (left as it was if it could not be extended)
                     self.put(DataElement::new(tag, header.vr, v));
-                    Ok(())
+                    result
                 }
 
-                Value::PixelSequence(..) => IncompatibleTypesSnafu {
-                    kind: ValueType::PixelSequence,
+                Value::PixelSequence(..) => {
+                    // not extensible: put the element back untouched
+                    self.entries.insert(
+                        tag,
+                        DataElement::new_with_len(tag, header.vr, header.len, value),
+                    );
+                    IncompatibleTypesSnafu {
+                        kind: ValueType::PixelSequence,
+                    }
+                    .fail()
                 }
-                .fail(),
-                Value::Sequence(..) => IncompatibleTypesSnafu {
-                    kind: ValueType::DataSetSequence,
+                Value::Sequence(..) => {
+                    // not extensible: put the element back untouched
+                    self.entries.insert(
+                        tag,
+                        DataElement::new_with_len(tag, header.vr, header.len, value),
+                    );
+                    IncompatibleTypesSnafu {
+                        kind: ValueType::DataSetSequence,
+                    }
+                    .fail()
                 }
-                .fail(),
             }
         } else {
             // infer VR from tag
@@ -1838,20 +1894,34 @@ where
             match value {
                 Value::Primitive(mut v) => {
                     // extend value
-                    v.extend_u16([integer]).context(ModifySnafu)?;
-                    // reinsert element
+                    let result = v.extend_u16([integer]).context(ModifySnafu);
+                    // reinsert element (left as it was if it could not be extended)
                     self.put(DataElement::new(tag, header.vr, v));
-                    Ok(())
+                    result
                 }
 
-                Value::PixelSequence(..) => IncompatibleTypesSnafu {
-                    kind: ValueType::PixelSequence,
+                Value::PixelSequence(..) => {
+                    // not extensible: put the element back untouched
+                    self.entries.insert(
+                        tag,
+                        DataElement::new_with_len(tag, header.vr, header.len, value),
+                    );
+                    IncompatibleTypesSnafu {
+                        kind: ValueType::PixelSequence,
+                    }
+                    .fail()
                 }
-                .fail(),
-                Value::Sequence(..) => IncompatibleTypesSnafu {
-                    kind: ValueType::DataSetSequence,
+                Value::Sequence(..) => {
+                    // not extensible: put the element back untouched
+                    self.entries.insert(
+                        tag,
+                        DataElement::new_with_len(tag, header.vr, header.len, value),
+                    );
+                    IncompatibleTypesSnafu {
+                        kind: ValueType::DataSetSequence,
+                    }
+                    .fail()
                 }
-                .fail(),
             }
         } else {
             // infer VR from tag
@@ -1871,20 +1941,34 @@ where
             match value {
                 Value::Primitive(mut v) => {
                     // extend value
-                    v.extend_f32([number]).context(ModifySnafu)?;
-                    // reinsert element
+                    let result = v.extend_f32([number]).context(ModifySnafu);
+                    // reinsert element (left as it was if it could not be extended)
                     self.put(DataElement::new(tag, header.vr, v));
-                    Ok(())
+                    result
                 }
 
-                Value::PixelSequence(..) => IncompatibleTypesSnafu {
-                    kind: ValueType::PixelSequence,
+                Value::PixelSequence(..) => {
+                    // not extensible: put the element back untouched
+                    self.entries.insert(
+                        tag,
+                        DataElement::new_with_len(tag, header.vr, header.len, value),
+                    );
+                    IncompatibleTypesSnafu {
+                        kind: ValueType::PixelSequence,
+                    }
+                    .fail()
                 }
-                .fail(),
-                Value::Sequence(..) => IncompatibleTypesSnafu {
-                    kind: ValueType::DataSetSequence,
+                Value::Sequence(..) => {
+                    // not extensible: put the element back untouched
+                    self.entries.insert(
+                        tag,
+                        DataElement::new_with_len(tag, header.vr, header.len, value),
+                    );
+                    IncompatibleTypesSnafu {
+                        kind: ValueType::DataSetSequence,
+                    }
+                    .fail()
                 }
-                .fail(),
             }
         } else {
             // infer VR from tag
@@ -1904,20 +1988,34 @@ where
             match value {
                 Value::Primitive(mut v) => {
                     // extend value
-                    v.extend_f64([number]).context(ModifySnafu)?;
-                    // reinsert element
+                    let result = v.extend_f64([number]).context(ModifySnafu);
+                    // reinsert element (left as it was if it could not be extended)
                     self.put(DataElement::new(tag, header.vr, v));
-                    Ok(())
+                    result
                 }
 
-                Value::PixelSequence(..) => IncompatibleTypesSnafu {
-                    kind: ValueType::PixelSequence,
+                Value::PixelSequence(..) => {
+                    // not extensible: put the element back untouched
+                    self.entries.insert(
+                        tag,
+                        DataElement::new_with_len(tag, header.vr, header.len, value),
+                    );
+                    IncompatibleTypesSnafu {
+                        kind: ValueType::PixelSequence,
+                    }
+                    .fail()
                 }
-                .fail(),
-                Value::Sequence(..) => IncompatibleTypesSnafu {
-                    kind: ValueType::DataSetSequence,
+                Value::Sequence(..) => {
+                    // not extensible: put the element back untouched
+                    self.entries.insert(
+                        tag,
+                        DataElement::new_with_len(tag, header.vr, header.len, value),
+                    );
+                    IncompatibleTypesSnafu {
+                        kind: ValueType::DataSetSequence,
+                    }
+                    .fail()
                 }
-                .fail(),
             }
         } else {
             // infer VR from tag
